@@ -136,6 +136,16 @@ def run(ctx):
     if [t[0] for t in tr3][:len(sched3)] != sched3 or tr3[len(sched3) - 1][2]['comps'][4][0] != 'finished':
         ctx.disagree({'W': W3, 'schedule': [t[0] for t in tr3]}, 'the multi-stage witness of C02_multistage_spec_refuted did not replay on the real controller',
                      None, 'C02 Refuted.v witness vs real Controller')
+    # producers of different stages that share their NAME (names are unique within a stage only): one is shut down,
+    # the other finishes; the consumer must be shut down whichever is listed first
+    for preds in ([0, 1], [1, 0]):
+        for bad in (0, 1):
+            W4 = [SC.comp(sd=['KnownIssue']), SC.comp(stage=1, sd=['KnownIssue']), SC.comp(stage=2, preds=preds)]
+            out4 = {0: ['Success'], 1: ['Success'], 2: ['Success']}
+            out4[bad] = ['KnownIssue']
+            run_one(ctx, W4, out4, scripted([('Start',), ('Exit', 0), ('PM', 0), ('Fin', 0), ('Tick',), ('Start',),
+                                             ('Exit', 1), ('PM', 1), ('Fin', 1), ('Tick',), ('Start',), ('Tick',)]),
+                    terms, 'corpus')
     nex = exhaustive_small(ctx, terms, 4 if ctx.tier == 'quick' else 5)
     ctx.count('exhaustive_runs', nex)
     nrand = 200 if ctx.tier == 'quick' else 1500
